@@ -298,7 +298,7 @@ func writeManifest() {
 			Technique: tech,
 		})
 	}
-	var nas []na
+	nas := []na{}
 	var naIDs []string
 	for id := range rules.NotApplicable {
 		naIDs = append(naIDs, id)
